@@ -202,6 +202,15 @@ class GuardedMap:
     def __vf_getattr__(self, I, name):
         if name == "get":
             return Builtin("get", lambda k, d=None: (self.__vf_getitem__(I, k) if self.__vf_contains__(I, k) else d))
+        if name == "update":
+            def update(other=(), **kw):
+                items = other.items() if isinstance(other, dict) else I.B.iterate(I, other)
+                for pair in items:
+                    k, v = list(I.B.iterate(I, pair)) if not isinstance(pair, tuple) else pair
+                    self.__vf_setitem__(I, k, v)
+                for k, v in kw.items():
+                    self.__vf_setitem__(I, k, v)
+            return Builtin("update", update)
         raise Unsupported(f"{self.name}.{name}")
 
 
